@@ -389,6 +389,7 @@ def projection_inbreeding_by_value(prog, m, fn):
     import itertools as _it
     import collections as _co
     n_runs = 0
+    holder = {}
     for L in (1, 2, 3, 4):
         for part in _it.combinations_with_replacement((0, 1, 2), L):
             for k in range(2, 2 * L + 1, 2):
@@ -403,6 +404,14 @@ def projection_inbreeding_by_value(prog, m, fn):
                     if last == 'comb' and len(args) == 2 and all(isinstance(a, int) for a in args):
                         import math
                         return math.comb(*args)
+                    if nm.endswith('add.at') and len(args) == 3 and isinstance(args[1], (list, tuple)) and mx.is_concrete(args[1]) and isinstance(args[2], (int, float)):
+                        # unbuffered in-place addition: once per index, duplicates included
+                        for ix_ in args[1]:
+                            holder['it'].path.events.append(('augitem', args[0], ix_, 'Add', args[2]))
+                        return None
+                    if nm.endswith('add.at') and len(args) == 3 and isinstance(args[1], int) and isinstance(args[2], (int, float)):
+                        holder['it'].path.events.append(('augitem', args[0], args[1], 'Add', args[2]))
+                        return None
                     if last in ('combinations', 'combinations_with_replacement', 'permutations', 'product') and all(mx.is_concrete(a) for a in args) and all(isinstance(v_, int) for v_ in kwargs.values()):
                         try:
                             return [tuple(x) for x in getattr(_it, last)(*args, **kwargs)]
@@ -410,6 +419,7 @@ def projection_inbreeding_by_value(prog, m, fn):
                             raise mx.Raised('ValueError')
                     return NotImplemented
                 it = mx.Interp(prog, m, call_hook=hook, symbolic_loops=False)
+                holder['it'] = it
                 try:
                     paths = it.run(fn, {'partition': list(part), 'k': k})
                 except mx.Undecidable as e:
@@ -440,6 +450,8 @@ def projection_inbreeding_by_value(prog, m, fn):
                         else:
                             cells[key] = (cells.get(key, 0) + vals[0]) if op == 'Add' else vals[0]
                 got = {j: c for j, c in cells.items() if c}
+                if not cells and want:
+                    return None, 'not evaluable: no store into the result was seen'
                 if got != dict(want):
                     return False, 'partition %s, k = %d: allele sums counted %s, the choices of %d individuals give %s' % (list(part), k, dict(sorted(got.items())), k // 2, dict(sorted(want.items())))
     return True, 'every choice of k/2 individuals is counted once at its allele sum (%d partitions x k executed abstractly)' % n_runs
